@@ -21,6 +21,11 @@ import (
 type runSem struct {
 	err        error
 	violations []string
+	// watcher goroutine (C13)
+	hasWatcher bool
+	watch      []string // violations of the hand-off protocol
+	leak       []string // violations of 'no goroutine left behind'
+	race       []string // unsynchronised accesses
 	notes      []string
 	steps      int
 	returns    map[string]int
@@ -56,11 +61,30 @@ func analyseRunSem(cx *Ctx) *runSem {
 		return rs
 	}
 	shared := map[string]string{} // alloc root -> name, cells captured by a goroutine
+	published := map[string]bool{}   // cells the goroutine stores atomically
+	plainStored := map[string]bool{} // cells the goroutine stores plainly
+	atomLoaded := map[string]bool{}  // cells Run loads atomically
+	type plainLoad struct {
+		root string
+		pred bdd.Node
+		pos  string
+	}
+	var plainLoads []plainLoad
 	nShared := 0
 	fresh := func(kind string) string { nShared++; return fmt.Sprintf("%s@%d", kind, nShared) }
 	ctxErrVal := func() absint.Value {
 		n := fresh("ctx.Err")
 		return &absint.Iface{Sym: n, Nil: c.Atom("IsNil("+n+")", 1)[0]}
+	}
+	var isCtxErr func(v absint.Value) bool
+	isCtxErr = func(v absint.Value) bool {
+		switch x := v.(type) {
+		case *absint.MuxV:
+			return isCtxErr(x.A) && isCtxErr(x.B)
+		case *absint.Iface:
+			return strings.HasPrefix(x.Sym, "ctx.Err")
+		}
+		return false
 	}
 	paths, widths := cx.E.IntLeaves()
 	stepN := 0
@@ -90,18 +114,91 @@ func analyseRunSem(cx *Ctx) *runSem {
 		if fv == nil {
 			return
 		}
-		for _, b := range fv.Bindings {
+		rs.hasWatcher = true
+		for _, b := range append(append([]absint.Value{}, fv.Bindings...), args...) {
 			if p, ok := b.(*absint.Ptr); ok && strings.HasPrefix(p.Root, "alloc#") {
 				shared[p.Root] = "cell"
-				in.SharedRoots[p.Root] = true
+				in.WatchStores[p.Root] = true
 			}
-			if p, ok := b.(*absint.Ptr); ok && p.Root == "cpu" {
-				rs.violations = append(rs.violations, pos+": the goroutine captures the CPU")
+			if p, ok := b.(*absint.Ptr); ok && (p.Root == "cpu" || strings.HasPrefix(p.Root, "*")) {
+				rs.watch = append(rs.watch, pos+": the goroutine captures the CPU (or something reached from it)")
 			}
+		}
+		// the goroutine's own behaviour: interpreted on a scratch trace
+		saved := in.T
+		wst := st.Clone()
+		wt := dom.NewTrace(c)
+		in.T = wt
+		func() {
+			defer func() {
+				if x := recover(); x != nil {
+					rs.watch = append(rs.watch, fmt.Sprintf("%s: the goroutine does something outside the hand-off protocol: %v", pos, x))
+				}
+			}()
+			in.ProbeBound(fv, args, guard, wst)
+		}()
+		in.T = saved
+
+		var sawRecv, sawPub bool
+		for i := range wt.Events {
+			e := &wt.Events[i]
+			switch e.Kind {
+			case "chan.recv":
+				if sawRecv {
+					rs.watch = append(rs.watch, e.Pos+": a second blocking receive in the goroutine")
+				}
+				sawRecv = true
+				if e.Dev != "ctx.derived" {
+					rs.leak = append(rs.leak, e.Pos+": the goroutine waits on Done() of "+e.Dev+", not of the context Run derives and cancels on return: it outlives Run when the caller never cancels")
+				}
+				if sawPub {
+					rs.watch = append(rs.watch, e.Pos+": the goroutine publishes before it has seen the cancellation")
+				}
+			case "shared.store":
+				if !sawRecv {
+					rs.watch = append(rs.watch, e.Pos+": the goroutine writes a shared cell before the context is done")
+				}
+				if sawPub {
+					rs.race = append(rs.race, e.Pos+": a shared cell is written after the flag was published: Run can read it before it is written (data race)")
+				}
+				plainStored[e.Dev] = true
+			case "atomic.store":
+				sawPub = true
+				published[e.Dev] = true
+			case "atomic.store-pointer":
+				sawPub = true
+				published[e.Dev] = true
+			case "atomic.store-pointer-bad":
+				sawPub = true
+				published[e.Dev] = true
+				rs.watch = append(rs.watch, e.Pos+": what the published pointer points at is not (yet) the Err() of the caller's or the derived context")
+			case "atomic.store-zero":
+				rs.watch = append(rs.watch, e.Pos+": the goroutine stores 0 into the flag (never observed as cancelled)")
+			}
+		}
+		for cell := range plainStored {
+			if v, ok := wst.Get(cell, ""); !ok || !isCtxErr(v) {
+				rs.watch = append(rs.watch, "the value the goroutine leaves in "+cell+" is not the Err() of the caller's or the derived context")
+			}
+		}
+		// from here on Run sees the cells the goroutine writes as changing under it
+		for cell := range plainStored {
+			in.SharedRoots[cell] = true
+		}
+		for cell := range published {
+			in.SharedRoots[cell] = true
+		}
+		if !sawRecv {
+			rs.watch = append(rs.watch, pos+": the goroutine does not wait for the context")
+		}
+		if !sawPub {
+			rs.watch = append(rs.watch, pos+": the goroutine never publishes the cancellation with an atomic store")
 		}
 	}
 	in.SharedRoots = map[string]bool{}
+	in.WatchStores = map[string]bool{}
 	in.SharedLoad = func(root, path string, w int) absint.Value {
+		plainLoads = append(plainLoads, plainLoad{root, in.CurPred(), ""})
 		n := fresh("shared(" + root + ")")
 		if w > 0 {
 			return c.Atom(n, w)
@@ -111,10 +208,41 @@ func analyseRunSem(cx *Ctx) *runSem {
 	noop := func(in *absint.Interp, args []absint.Value, guard bdd.Node, st *absint.State, pos string) (absint.Value, bool) {
 		return nil, true
 	}
+	cellOf := func(v absint.Value) string {
+		if p, ok := v.(*absint.Ptr); ok {
+			return p.Root
+		}
+		return "?"
+	}
 	atomicLoad := func(w int) absint.ModelFunc {
 		return func(in *absint.Interp, args []absint.Value, guard bdd.Node, st *absint.State, pos string) (absint.Value, bool) {
+			atomLoaded[cellOf(args[0])] = true
 			return c.Atom(fresh("atomic.Load"), w), true
 		}
+	}
+	atomicStore := func(in *absint.Interp, args []absint.Value, guard bdd.Node, st *absint.State, pos string) (absint.Value, bool) {
+		if len(args) > 1 {
+			if bv, ok := args[1].(dom.BV); ok {
+				if k, isc := bv.IsConst(); isc && k == 0 {
+					tr2 := in.T
+					tr2.Emit(guard, "atomic.store-zero", cellOf(args[0]), nil, 0, pos)
+					return nil, true
+				}
+			}
+		}
+		if len(args) > 1 {
+			if p, ok := args[1].(*absint.Ptr); ok {
+				kind := "atomic.store-pointer"
+				if v, ok := st.Get(p.Root, p.Path); !ok || !isCtxErr(v) {
+					kind += "-bad"
+				}
+				in.WatchStores[p.Root] = true // the pointee is shared from here on
+				in.T.Emit(guard, kind, cellOf(args[0]), nil, 0, pos)
+				return nil, true
+			}
+		}
+		in.T.Emit(guard, "atomic.store", cellOf(args[0]), nil, 0, pos)
+		return nil, true
 	}
 	in.Models = map[string]absint.ModelFunc{
 		"context.WithCancel": func(in *absint.Interp, args []absint.Value, guard bdd.Node, st *absint.State, pos string) (absint.Value, bool) {
@@ -123,8 +251,11 @@ func analyseRunSem(cx *Ctx) *runSem {
 		"sync/atomic.LoadInt32": atomicLoad(32), "sync/atomic.LoadUint32": atomicLoad(32), "sync/atomic.LoadInt64": atomicLoad(64),
 		"(*sync/atomic.Bool).Load":  atomicLoad(1),
 		"(*sync/atomic.Int32).Load": atomicLoad(32),
-		"sync/atomic.StoreInt32":    noop,
-		"(*sync/atomic.Pointer[error]).Load": func(in *absint.Interp, args []absint.Value, guard bdd.Node, st *absint.State, pos string) (absint.Value, bool) {
+		"sync/atomic.StoreInt32": atomicStore, "sync/atomic.StoreUint32": atomicStore, "sync/atomic.StoreInt64": atomicStore,
+		"(*sync/atomic.Bool).Store": atomicStore, "(*sync/atomic.Int32).Store": atomicStore,
+		"(*sync/atomic.Pointer).Store": atomicStore,
+		"(*sync/atomic.Pointer).Load": func(in *absint.Interp, args []absint.Value, guard bdd.Node, st *absint.State, pos string) (absint.Value, bool) {
+			atomLoaded[cellOf(args[0])] = true
 			n := fresh("atomic.Pointer")
 			in.AddSymbolicRoot("*"+n, n+".")
 			in.InitOverride["*"+n+"|"] = ctxErrVal()
@@ -136,7 +267,7 @@ func analyseRunSem(cx *Ctx) *runSem {
 		case strings.HasSuffix(kind, ".Err"):
 			return ctxErrVal(), true
 		case strings.HasSuffix(kind, ".Done"):
-			return &absint.Opaque{Why: "done channel"}, true
+			return &absint.Opaque{Why: "done:" + dev}, true
 		}
 		return nil, false
 	}
@@ -148,6 +279,7 @@ func analyseRunSem(cx *Ctx) *runSem {
 			args = append(args, in.SymbolicValue(p.Type(), "ctx"))
 		}
 	}
+	_ = noop
 	_, _, err := in.Run(run, args, st)
 	if err != nil {
 		rs.err = err
@@ -267,6 +399,51 @@ func analyseRunSem(cx *Ctx) *runSem {
 	say(M.Xor(M.And(entry, pNil), M.And(gStep, M.And(M.Not(bpPresent), halt))), "nil must be returned exactly when the Step of this iteration executed HALT and PC is not a breakpoint")
 	say(M.Xor(ls.BackPred, M.And(gStep, M.And(M.Not(bpPresent), M.Not(halt)))), "the loop must continue exactly when the Step hit no breakpoint and executed no HALT")
 	say(M.And(entry, pOther), "Run returns something other than nil, ErrBreakPoint or the context's error")
+	// hand-off, run side
+	if rs.hasWatcher {
+		for cell := range published {
+			if !atomLoaded[cell] {
+				rs.race = append(rs.race, "Run does not atomically load the cell the goroutine publishes through ("+cell+")")
+			}
+		}
+		for cell := range atomLoaded {
+			if !published[cell] && shared[cell] != "" {
+				rs.race = append(rs.race, "the goroutine does not atomically store the cell Run loads ("+cell+")")
+			}
+		}
+		for cell := range plainStored {
+			if atomLoaded[cell] {
+				rs.race = append(rs.race, "the goroutine writes "+cell+" with a plain store while Run loads it atomically")
+			}
+		}
+		for i := range tr.Events {
+			if e := &tr.Events[i]; e.Kind == "shared.store" {
+				rs.race = append(rs.race, e.Pos+": Run itself writes "+e.Dev+" after the goroutine has started (races with the goroutine)")
+			}
+		}
+		for _, pl := range plainLoads {
+			if atomLoaded[pl.root] || published[pl.root] {
+				rs.race = append(rs.race, "Run reads the published cell "+pl.root+" with a plain load (data race with the goroutine's store)")
+				continue
+			}
+			if M.And(pl.pred, M.Not(cancel)) != bdd.False && plainStored[pl.root] {
+				rs.race = append(rs.race, "Run reads "+pl.root+", which the goroutine writes, on a path that has not observed the published flag (unsynchronised read)")
+			}
+		}
+		// no leak: the derived context is cancelled on every return
+		covered := bdd.False
+		for i := range tr.Events {
+			if e := &tr.Events[i]; e.Kind == "deferred:cancel" {
+				covered = M.Or(covered, e.Guard)
+			}
+		}
+		for _, rt := range in.TopReturns {
+			if M.And(rt.Pred, M.Not(covered)) != bdd.False {
+				rs.leak = append(rs.leak, "Run can return without cancelling the context its goroutine waits on (the derived context's CancelFunc is not run on every return): the goroutine is left behind")
+				break
+			}
+		}
+	}
 	// 3. inside the loop the CPU is changed by Step only
 	for _, k := range ls.StoreChanged {
 		root, path := absint.SplitKey(k)
